@@ -35,10 +35,11 @@ const (
 	c12QuickMsgCtx    = 240
 	c12ThoroughMsgCtx = 3000
 	c12MsgCtxStride   = 4
-	c12Stride         = 10   // idx%10: 0..4 schedule, 5 ctx, 6 elapsed, 7 concurrent, 8 elapsed inside a wait, 9 ctx with zero waits
-	c12BigMR          = 2000 // MaxRetries of the MaxElapsedTime class
-	retryFrame        = "Retry.Middleware"
-	hour              = time.Hour
+	// appended after those: classes errval/* (c12QuickErrVal / c12ThoroughErrVal cases, see errval.go)
+	c12Stride  = 10   // idx%10: 0..4 schedule, 5 ctx, 6 elapsed, 7 concurrent, 8 elapsed inside a wait, 9 ctx with zero waits
+	c12BigMR   = 2000 // MaxRetries of the MaxElapsedTime class
+	retryFrame = "Retry.Middleware"
+	hour       = time.Hour
 )
 
 func init() {
@@ -46,7 +47,7 @@ func init() {
 		ID:    "C12",
 		Level: "exploration",
 		Cases: func(tier string) int {
-			return vlib.TierN(tier, c12Quick+c12QuickExtra+c12QuickMsgCtx, c12Thorough+c12ThoroughExtra+c12ThoroughMsgCtx)
+			return vlib.TierN(tier, c12Quick+c12QuickExtra+c12QuickMsgCtx+c12QuickErrVal, c12Thorough+c12ThoroughExtra+c12ThoroughMsgCtx+c12ThoroughErrVal)
 		},
 		Rule: "The first 600 (quick) / 60000 (thorough) cases: case idx%10 in 0..4 = class schedule: one random Retry config (MaxRetries 1..8, InitialInterval 0 / ns / us / up to 3 ms, Multiplier in {1,1.5,2,3,random 1..3}, " +
 			"MaxInterval = Initial .. Initial+6 ms, RandomizationFactor in {0,0.5,1,random}, MaxElapsedTime 0 or 1 h, Logger nil or Nop) wrapped ONCE and invoked with 3-4 handler scripts " +
@@ -79,7 +80,18 @@ func init() {
 			"m%4==3 = msgctx/schedule/<kind>: a schedule-class config and scripts with MaxElapsedTime 0 / 1 h / 5..30 s and kind far (deadline 2..3 h), between (E = 1 h, deadline 20..40 min), later-sec (E = 5..30 s, deadline E + 1..5 min), none: the deadline is far beyond the case, so every invocation must get its full number of attempts " +
 			"and the ordinary hook / delay / gap clauses apply (inconclusive if the harness finds its own context ended). " +
 			"Non-trivial for msgctx/*: elapsed = gave up with 2..2000 calls; inside-wait = gave up after exactly 2 calls; deadline-in-wait = returned after 1 call; schedule = as class schedule. " +
-			"Distinct = distinct (class, config, scripts, observed call counts).",
+			"The last 480 (quick) / 9600 (thorough) cases, q = idx-960 / idx-64500, class errval/<class>: the error VALUE of a failed attempt must not matter. The workload of another class is run unchanged " +
+			"(q%16 in 0..4 schedule, 5 ctx/*, 6 redeliver, 7 nested, 8 long-lived/*, 9 msgctx/schedule/*, 10 elapsed or msgctx/elapsed/*, 11 msgctx/deadline-in-wait/*, 12 concurrent, 13 elapsed-inside-wait or msgctx/inside-wait/*, 14 ctx-zero-wait, 15 redeliver or nested) " +
+			"but every failing attempt takes its error from a script drawn per invocation (in class nested per inner run, in class concurrent also one value for the first attempt of all the other messages): " +
+			"mode same-value (one value, returned by every failing attempt), same-kind (a fresh value of one kind per attempt), per-attempt (a random kind per attempt), plain-then-special (plain errors up to attempt 1..3, then one special kind); " +
+			"kinds: *attemptErr, errors.New; context.Canceled, context.DeadlineExceeded; the same wrapped by fmt.Errorf %w (once / twice), pkg/errors Wrap / WithStack, errors.Join (either position), hashicorp/go-multierror, a custom type with Unwrap; " +
+			"the error of a per-call context derived from the LIVE message context (WithDeadline in the past -> fmt.Errorf(%w sub.Err()); WithCancel + cancel -> sub.Err(); WithCancelCause -> context.Cause(sub)); " +
+			"backoff.Permanent(plain), backoff.Permanent(context error), fmt.Errorf(%w backoff.Permanent(..)) (*backoff.PermanentError of the vendored cenkalti/backoff/v3); io.EOF, io.ErrUnexpectedEOF, os.ErrDeadlineExceeded, fmt.Errorf(%w io.EOF); " +
+			"an error type whose Error() is \"\", errors.New(\"\"); errors.New(\"context canceled\" / \"context deadline exceeded\") (the text of the sentinel, not the sentinel); non-comparable error values (a slice type, a struct with func and map fields, and a %w wrapper of one); " +
+			"a typed nil pointer (*T)(nil) in a non-nil error interface (a FAILED attempt: err != nil; the unchanged Retry retries it); an error whose Is method matches every target; a net.Error-like value with random Timeout()/Temporary(). " +
+			"Attempt counts, hook calls, hook delays, back-off gaps, give-up behaviour and the returned error are judged by the unchanged clauses of the underlying class (the returned error must be the last attempt's value - identity, for non-comparable values type + id - or wrap it); non-trivial as in the underlying class. " +
+			"Classes elapsed and msgctx/elapsed (all cases, errval or not) additionally demand a second call unless the harness's own measurement cannot exclude that a limit was reached (see Assumptions). " +
+			"Distinct = distinct (class, config, scripts incl. error script, observed call counts).",
 		Assumptions: []string{
 			"MaxInterval >= InitialInterval (a cap below the initial interval is a mis-configuration which the vendored back-off does not honour on the first wait; excluded)",
 			"cur_k is min(Initial*Mult^(k-1), Max) computed in float64; the reported delay may deviate from cur_k*(1+-RF) by the accumulated integer truncation of the iterative computation (<= sum Mult^j ns) plus 2 ns",
@@ -96,6 +108,10 @@ func init() {
 			"class nested: a failed inner chain counts as one failed attempt of the outer level; the product rule for the number of handler runs follows from judging both levels",
 			"class msgctx/*: 'gives up early when the message context ends or MaxElapsedTime passes' holds for every message context, whatever deadline it carries itself: the earlier of the two ends the retries. Only call counts are judged (no upper bound on any duration): " +
 				"msgctx/elapsed reports only the use of all 2001 calls (impossible while either limit is honoured, since 2000 waits of >= 1 ms are needed), msgctx/inside-wait only a conclusive third attempt in 4 runs (and no run in which Retry gave up), msgctx/deadline-in-wait only a second call or a Retry that is quiescent in its 1 h wait after the harness saw the deadline pass",
+			"classes errval/*: a failed attempt is one whose returned error interface is non-nil, whatever its dynamic value (incl. a typed nil pointer); 'the message context ends' and 'MaxElapsedTime passes' are facts about the message's context and the clock, not about the error value: " +
+				"an error that is or wraps context.Canceled / context.DeadlineExceeded while the message context is alive is an ordinary failure, and so is a *backoff.PermanentError (the property knows no permanent errors). The Logger of these cases is nil or watermill.NopLogger (no Error() call on the values by a logger)",
+			"classes elapsed, msgctx/elapsed: fewer than 2 handler calls are reported (clause calls) only when Retry returned less than MaxElapsedTime after the end of attempt 1 (end taken inside the handler, i.e. before Retry starts its budget; return taken outside, i.e. after Retry's last reading of its clock) " +
+				"and the context the harness put on the message still had a nil Err() after the return: then neither give-up reason existed and at least one retry was due (MaxRetries 2000); otherwise the early return is tolerated and counted (early_giveup_limit_possibly_reached)",
 			"class msgctx/*: whether a value of the message context is visible through msg.Context() inside an attempt is counted (msgctx_value_seen / msgctx_value_missing), not judged",
 		},
 		Run: run,
@@ -187,6 +203,8 @@ type invocation struct {
 	onAttemt func(n int)          // called inside attempt n (before it returns)
 	// delegate != nil: attempt n is not scripted, it is the result of delegate (class nested: the inner Retry chain)
 	delegate func(n int, msg *message.Message) ([]*message.Message, error)
+	// errs != nil (classes errval/*): the error of a failing attempt comes from this script instead of a fresh *attemptErr
+	errs *errScript
 
 	mu       sync.Mutex
 	attempts []attempt
@@ -201,6 +219,7 @@ type invocation struct {
 
 	ctxBefore, ctxAfter context.Context // msg.Context() right before / right after the call
 	ctxErrAfter         error
+	callerCtxErrAfter   error // Err() of the context the caller had put on the message, read right after the call returned
 }
 
 // call runs h(msg) on the calling goroutine and records the result and the message context around the call.
@@ -209,9 +228,10 @@ func (iv *invocation) call(h message.HandlerFunc, msg *message.Message) ([]*mess
 	out, err := h(msg)
 	at := time.Now()
 	after := msg.Context()
+	callerErr := before.Err() // read after `at`: nil means the caller's context had not ended when Retry returned
 	iv.mu.Lock()
 	iv.retOut, iv.retErr, iv.returned, iv.retAt = out, err, true, at
-	iv.ctxBefore, iv.ctxAfter, iv.ctxErrAfter = before, after, after.Err()
+	iv.ctxBefore, iv.ctxAfter, iv.ctxErrAfter, iv.callerCtxErrAfter = before, after, after.Err(), callerErr
 	iv.mu.Unlock()
 	return out, err
 }
@@ -238,7 +258,11 @@ func (iv *invocation) handler(msg *message.Message) ([]*message.Message, error) 
 			out = iv.outs[n-1]
 		}
 		if iv.forever || n <= iv.failN {
-			err = &attemptErr{run: iv.name, n: n}
+			if iv.errs != nil {
+				err = iv.errs.next(n, msg)
+			} else {
+				err = &attemptErr{run: iv.name, n: n}
+			}
 		}
 	}
 
@@ -313,6 +337,11 @@ type expect struct {
 	// does not prove that the budget was still open.
 	ownBudget time.Duration
 	ctxIntact bool // the harness never ends the message context: it must not have ended when Retry returns
+	// callsAtLeast > 0 (classes elapsed, msgctx/elapsed): fewer calls are a violation when the harness's own measurement proves that
+	// neither limit had been reached when Retry returned: return - end of attempt 1 < giveUpBudget (= MaxElapsedTime) and the
+	// context the caller put on the message had not ended after the return. Otherwise tolerated (counted).
+	callsAtLeast int
+	giveUpBudget time.Duration
 	// class msgctx/*: how the message context was built and the deadline it carries (0: none), for the reports
 	msgCtx      string
 	msgDeadline time.Duration
@@ -337,26 +366,31 @@ type trace struct {
 	DelaysNs []int64  `json:"hook_delays_ns,omitempty"`
 	GapsNs   []int64  `json:"gaps_ns,omitempty"`
 	Attempts []string `json:"attempts,omitempty"`
+	ErrKinds []string `json:"error_kinds,omitempty"` // classes errval/*: kind of the error value of the first failing attempts
 }
 
 func (iv *invocation) script() string {
+	s := fmt.Sprintf("fail^%d-then-succeed", iv.failN)
 	if iv.forever {
-		return "fail-forever"
+		s = "fail-forever"
 	}
-	return fmt.Sprintf("fail^%d-then-succeed", iv.failN)
+	if iv.errs != nil {
+		s += " " + iv.errs.desc()
+	}
+	return s
 }
 
 func (iv *invocation) trace() trace {
 	iv.mu.Lock()
 	defer iv.mu.Unlock()
-	t := trace{Run: iv.name, Script: iv.script(), Calls: len(iv.attempts)}
+	t := trace{Run: iv.name, Script: iv.script(), Calls: len(iv.attempts), ErrKinds: iv.errs.seen()}
 	switch {
 	case iv.panicked != "":
 		t.Outcome = "panic: " + iv.panicked
 	case !iv.returned:
 		t.Outcome = "not returned"
 	case iv.retErr != nil:
-		t.Outcome = fmt.Sprintf("error %q, %d messages", iv.retErr.Error(), len(iv.retOut))
+		t.Outcome = fmt.Sprintf("error %q, %d messages", errText(iv.retErr), len(iv.retOut))
 	default:
 		t.Outcome = fmt.Sprintf("nil error, %d messages", len(iv.retOut))
 	}
@@ -449,6 +483,14 @@ func judge(res *vlib.Result, c cfg, iv *invocation, ex expect) int {
 			fail("calls", "expected min(i+1, MaxRetries+1) = %d handler calls, observed %d", ex.calls, n)
 		}
 	}
+	if ex.callsAtLeast > 0 && n < ex.callsAtLeast && iv.returned && !iv.retAt.IsZero() {
+		if spent := iv.retAt.Sub(iv.attempts[0].end); spent < ex.giveUpBudget && iv.callerCtxErrAfter == nil {
+			fail("calls", "attempt %d failed and Retry gave up after %d handler call(s) of at most %d, although it returned %v after the end of attempt 1 (MaxElapsedTime %v not passed) and the message context had not ended after the return",
+				n, n, c.MaxRetries+1, spent, c.MaxElapsed)
+		} else {
+			res.Count("early_giveup_limit_possibly_reached", 1)
+		}
+	}
 	if ex.callsBelow > 0 && n >= ex.callsBelow {
 		if ex.ctxClause {
 			fail("ctx-giveup", "the message context's own deadline (%v after its creation, MaxElapsedTime %v) passed but Retry used all %d calls (MaxRetries+1 = %d)", ex.msgDeadline, c.MaxElapsed, n, ex.callsBelow)
@@ -460,15 +502,15 @@ func judge(res *vlib.Result, c cfg, iv *invocation, ex expect) int {
 	last := iv.attempts[n-1]
 	if last.ok {
 		if iv.retErr != nil {
-			fail("success-result", "attempt %d succeeded but Retry returned error %q", n, iv.retErr.Error())
+			fail("success-result", "attempt %d succeeded but Retry returned error %q", n, errText(iv.retErr))
 		} else if !sameMsgs(iv.retOut, last.out) {
 			fail("success-result", "attempt %d succeeded with %d messages %v but Retry returned %d messages %v", n, len(last.out), uuids(last.out), len(iv.retOut), uuids(iv.retOut))
 		}
 	} else {
 		if iv.retErr == nil {
-			fail("failure-to-success", "all %d attempts failed (last: %q) but Retry returned a nil error with %d messages", n, last.err.Error(), len(iv.retOut))
-		} else if iv.retErr != last.err && !errors.Is(iv.retErr, last.err) {
-			fail("last-error", "last attempt (%d) failed with %q but Retry returned %q", n, last.err.Error(), iv.retErr.Error())
+			fail("failure-to-success", "all %d attempts failed (last: %q, a %T) but Retry returned a nil error with %d messages", n, errText(last.err), last.err, len(iv.retOut))
+		} else if !sameErr(iv.retErr, last.err) && !errors.Is(iv.retErr, last.err) {
+			fail("last-error", "last attempt (%d) failed with %q (a %T) but Retry returned %q (a %T)", n, errText(last.err), last.err, errText(iv.retErr), iv.retErr)
 		}
 	}
 	// --- hooks: 1,2,... in order, once per failed retry
@@ -663,41 +705,44 @@ func genCfg(r *vlib.Rand) cfg {
 // case runner
 
 func run(e *vlib.Env) vlib.Result {
+	if base := vlib.TierN(e.Tier, c12Quick+c12QuickExtra+c12QuickMsgCtx, c12Thorough+c12ThoroughExtra+c12ThoroughMsgCtx); e.Idx >= base {
+		return runErrVal(e, e.Idx-base)
+	}
 	if base := vlib.TierN(e.Tier, c12Quick+c12QuickExtra, c12Thorough+c12ThoroughExtra); e.Idx >= base {
 		m := e.Idx - base
 		switch m % c12MsgCtxStride {
 		case 0:
-			return runMsgCtxElapsed(e, m/c12MsgCtxStride)
+			return runMsgCtxElapsed(e, m/c12MsgCtxStride, nil)
 		case 1:
-			return runMsgCtxInsideWait(e, m/c12MsgCtxStride)
+			return runMsgCtxInsideWait(e, m/c12MsgCtxStride, nil)
 		case 2:
-			return runMsgCtxDeadlineInWait(e, m/c12MsgCtxStride)
+			return runMsgCtxDeadlineInWait(e, m/c12MsgCtxStride, nil)
 		}
-		return runMsgCtxSchedule(e, m/c12MsgCtxStride)
+		return runMsgCtxSchedule(e, m/c12MsgCtxStride, nil)
 	}
 	if base := vlib.TierN(e.Tier, c12Quick, c12Thorough); e.Idx >= base {
 		j := e.Idx - base
 		switch j % c12ExtraStride {
 		case 0:
-			return runLongLived(e, j/c12ExtraStride)
+			return runLongLived(e, j/c12ExtraStride, nil)
 		case 1:
-			return runRedeliver(e)
+			return runRedeliver(e, nil)
 		}
-		return runNested(e)
+		return runNested(e, nil)
 	}
 	switch e.Idx % c12Stride {
 	case 5:
-		return runCtx(e)
+		return runCtx(e, e.Idx/c12Stride, nil)
 	case 6:
-		return runElapsed(e)
+		return runElapsed(e, nil)
 	case 7:
-		return runConcurrent(e)
+		return runConcurrent(e, nil)
 	case 8:
-		return runElapsedInsideWait(e)
+		return runElapsedInsideWait(e, nil)
 	case 9:
-		return runCtxZeroWait(e)
+		return runCtxZeroWait(e, nil)
 	}
-	return runSchedule(e)
+	return runSchedule(e, nil)
 }
 
 func finish(res *vlib.Result, oc vlib.Outcome, dump string, iv *invocation, what string) bool {
@@ -713,7 +758,7 @@ func finish(res *vlib.Result, oc vlib.Outcome, dump string, iv *invocation, what
 	return true
 }
 
-func runSchedule(e *vlib.Env) vlib.Result {
+func runSchedule(e *vlib.Env, plan *errPlan) vlib.Result {
 	res := vlib.Result{Class: "schedule"}
 	c := genCfg(e.R)
 	// one wrapped handler for all scripts of the config: state must not leak between invocations
@@ -739,6 +784,7 @@ func runSchedule(e *vlib.Env) vlib.Result {
 	for ri, si := range order {
 		s := scripts[si]
 		iv := &invocation{name: fmt.Sprintf("%s-r%d", e.ID(), ri), failN: s.failN, forever: s.forever}
+		iv.errs = plan.script(iv.name)
 		iv.outs = genOuts(e.R, iv.name, c.MaxRetries+3)
 		curMu.Lock()
 		cur = iv
@@ -770,9 +816,9 @@ func runSchedule(e *vlib.Env) vlib.Result {
 	return res
 }
 
-func runCtx(e *vlib.Env) vlib.Result {
+func runCtx(e *vlib.Env, vi int, plan *errPlan) vlib.Result {
 	variants := []string{"handler-k1", "handler-k2", "handler-k3", "external", "pre-cancelled", "deadline"}
-	v := variants[(e.Idx/c12Stride)%len(variants)]
+	v := variants[vi%len(variants)]
 	res := vlib.Result{Class: "ctx/" + v}
 	c := cfg{Initial: hour, Max: hour, Mult: 1 + 2*e.R.Float(), RF: 0.5 * e.R.Float(), Logger: e.R.Bool()}
 	k := 1
@@ -793,6 +839,7 @@ func runCtx(e *vlib.Env) vlib.Result {
 		c.MaxElapsed = hour
 	}
 	iv := &invocation{name: e.ID() + "-ctx", forever: true}
+	iv.errs = plan.script(iv.name)
 	iv.outs = genOuts(e.R, iv.name, 4)
 	// sometimes the attempt in which the context ends succeeds: the success must still be returned
 	succeeds := e.R.Intn(5) == 0
@@ -869,11 +916,12 @@ func runCtx(e *vlib.Env) vlib.Result {
 	return res
 }
 
-func runElapsed(e *vlib.Env) vlib.Result {
+func runElapsed(e *vlib.Env, plan *errPlan) vlib.Result {
 	res := vlib.Result{Class: "elapsed"}
 	iv2 := time.Duration(e.R.Range(1000, 2000)) * time.Microsecond
 	c := cfg{MaxRetries: c12BigMR, Initial: iv2, Max: iv2, Mult: 1, RF: 0, MaxElapsed: time.Duration(e.R.Range(5, 20)) * time.Millisecond, Logger: e.R.Bool()}
 	iv := &invocation{name: e.ID() + "-el", forever: true, work: 100 * time.Microsecond}
+	iv.errs = plan.script(iv.name)
 	h := c.retry(iv.hook).Middleware(iv.handler)
 	msg := message.NewMessage(iv.name, e.R.Payload(8))
 
@@ -893,7 +941,7 @@ func runElapsed(e *vlib.Env) vlib.Result {
 	if !finish(&res, oc, dump, iv, "elapsed") {
 		return res
 	}
-	res.Events += judge(&res, c, iv, expect{class: "elapsed", calls: -1, callsBelow: c.MaxRetries + 1, checkDelay: true, allowStop: true})
+	res.Events += judge(&res, c, iv, expect{class: "elapsed", calls: -1, callsBelow: c.MaxRetries + 1, checkDelay: true, allowStop: true, callsAtLeast: 2, giveUpBudget: c.MaxElapsed})
 	if res.Failed() {
 		res.Witness = tr
 		return res
@@ -909,14 +957,20 @@ func runElapsed(e *vlib.Env) vlib.Result {
 }
 
 // runConcurrent: a permanently failing message is retried while other messages pass through the SAME wrapped handler.
-func runConcurrent(e *vlib.Env) vlib.Result {
+func runConcurrent(e *vlib.Env, plan *errPlan) vlib.Result {
 	res := vlib.Result{Class: "concurrent"}
 	c := cfg{MaxRetries: e.R.Range(3, 4), Initial: time.Duration(e.R.Range(8, 12)) * time.Millisecond, Max: time.Second, Mult: 2, RF: 0, Logger: e.R.Bool()}
 	a := &invocation{name: e.ID() + "-A", forever: true}
+	a.errs = plan.script(a.name)
 	var others atomic.Int64
 	var stop atomic.Bool
 	var seenMu sync.Mutex
 	seen := map[string]int{}
+	var otherErr error = errors.New("first attempt of another message fails")
+	otherKind := ""
+	if v, k := plan.single(e.ID()+"-others", message.NewMessage(e.ID()+"-probe", nil)); v != nil {
+		otherErr, otherKind = v, k // one immutable value, returned to every other message
+	}
 	inner := func(msg *message.Message) ([]*message.Message, error) {
 		if msg.UUID == a.name {
 			return a.handler(msg)
@@ -927,7 +981,7 @@ func runConcurrent(e *vlib.Env) vlib.Result {
 		first := seen[msg.UUID] == 1
 		seenMu.Unlock()
 		if first {
-			return nil, errors.New("first attempt of another message fails")
+			return nil, otherErr
 		}
 		others.Add(1)
 		return nil, nil
@@ -950,7 +1004,7 @@ func runConcurrent(e *vlib.Env) vlib.Result {
 	stop.Store(true)
 	feeders.Wait()
 	tr := a.trace()
-	res.Sample = map[string]any{"cfg": c, "invocation": tr, "other_messages_through_the_same_handler": others.Load()}
+	res.Sample = map[string]any{"cfg": c, "invocation": tr, "other_messages_through_the_same_handler": others.Load(), "first_attempt_error_of_the_other_messages": otherKind}
 	res.Sig = vlib.Sig("concurrent", c.MaxRetries, c.Initial, gap, tr.Calls)
 	if !finish(&res, oc, dump, a, "concurrent") {
 		return res
@@ -1047,7 +1101,7 @@ func (iv *invocation) thirdAttempt(res *vlib.Result, ini time.Duration, probe *s
 const insideWaitInconclusive = "%s: a third attempt was made in all %d runs, but only %d of them were conclusive (in the others the second wait was not the full 6 x Initial - the back-off policy found MaxElapsedTime used up already - or the harness's own 3 x Initial timer, started in attempt 2, fired more than Initial late: stalled process)"
 
 // runElapsedInsideWait: MaxElapsedTime ends inside a back-off wait, far away from both of its ends.
-func runElapsedInsideWait(e *vlib.Env) vlib.Result {
+func runElapsedInsideWait(e *vlib.Env, plan *errPlan) vlib.Result {
 	res := vlib.Result{Class: "elapsed-inside-wait"}
 	ini := time.Duration(e.R.Range(40, 80)) * time.Millisecond
 	c := cfg{MaxRetries: 6, Initial: ini, Max: time.Hour, Mult: 6, RF: 0, MaxElapsed: ini + ini/2, Logger: e.R.Bool()}
@@ -1059,6 +1113,7 @@ func runElapsedInsideWait(e *vlib.Env) vlib.Result {
 	sightings := 0
 	for rep := 0; rep < insideWaitMaxReps; rep++ {
 		iv := &invocation{name: fmt.Sprintf("%s-eiw%d", e.ID(), rep), forever: true}
+		iv.errs = plan.script(iv.name)
 		h := c.retry(iv.hook).Middleware(iv.handler)
 		probe := newStallProbe(3 * ini)
 		iv.onAttemt = func(n int) {
@@ -1107,13 +1162,14 @@ func runElapsedInsideWait(e *vlib.Env) vlib.Result {
 }
 
 // runCtxZeroWait: zero back-off waits and a context that ends in the first attempt (statistical: see the Rule).
-func runCtxZeroWait(e *vlib.Env) vlib.Result {
+func runCtxZeroWait(e *vlib.Env, plan *errPlan) vlib.Result {
 	res := vlib.Result{Class: "ctx-zero-wait"}
 	c := cfg{MaxRetries: 8, Initial: 0, Max: 0, Mult: 1, RF: 0, Logger: e.R.Bool()}
 	const n = 40
 	all, dist := 0, map[int]int{}
 	for i := 0; i < n; i++ {
 		iv := &invocation{name: fmt.Sprintf("%s-z%d", e.ID(), i), forever: true}
+		iv.errs = plan.script(iv.name)
 		msg := message.NewMessage(iv.name, nil)
 		ctx, cancel := context.WithCancel(context.Background())
 		msg.SetContext(ctx)
@@ -1189,7 +1245,7 @@ func (c *current) handler(m *message.Message) ([]*message.Message, error) { retu
 func (c *current) hook(n int, d time.Duration)                            { c.get().hook(n, d) }
 
 // runLongLived: one Retry.Middleware(h) result serves messages that arrive later than MaxElapsedTime after it was built.
-func runLongLived(e *vlib.Env, vi int) vlib.Result {
+func runLongLived(e *vlib.Env, vi int, plan *errPlan) vlib.Result {
 	variants := []string{"reused", "idle-first", "same-message", "slow-first"}
 	v := variants[vi%len(variants)]
 	res := vlib.Result{Class: "long-lived/" + v}
@@ -1253,6 +1309,7 @@ func runLongLived(e *vlib.Env, vi int) vlib.Result {
 			vlib.TimerWait(pause)
 		}
 		iv := &invocation{name: fmt.Sprintf("%s-l%d", e.ID(), ri), failN: st.s.failN, forever: st.s.forever}
+		iv.errs = plan.script(iv.name)
 		iv.outs = genOuts(e.R, iv.name, c.MaxRetries+2)
 		if st.slow {
 			d := c.MaxElapsed + time.Duration(e.R.Range(5, 25))*time.Millisecond
@@ -1304,7 +1361,7 @@ func (iv *invocation) firstEnd() time.Time {
 }
 
 // runRedeliver: the same *message.Message is presented again and again to wrapped Retry handlers.
-func runRedeliver(e *vlib.Env) vlib.Result {
+func runRedeliver(e *vlib.Env, plan *errPlan) vlib.Result {
 	res := vlib.Result{Class: "redeliver"}
 	c := genCfg(e.R)
 	switch e.R.Intn(3) {
@@ -1346,6 +1403,7 @@ func runRedeliver(e *vlib.Env) vlib.Result {
 	for ri, si := range order {
 		s := scripts[si]
 		iv := &invocation{name: fmt.Sprintf("%s-d%d", e.ID(), ri), failN: s.failN, forever: s.forever}
+		iv.errs = plan.script(iv.name)
 		iv.outs = genOuts(e.R, iv.name, c.MaxRetries+2)
 		cur.set(iv)
 		which := 0
@@ -1392,7 +1450,7 @@ func genNestedCfg(r *vlib.Rand) cfg {
 }
 
 // runNested: outer Retry around inner Retry around the scripted handler.
-func runNested(e *vlib.Env) vlib.Result {
+func runNested(e *vlib.Env, plan *errPlan) vlib.Result {
 	res := vlib.Result{Class: "nested"}
 	co, ci := genNestedCfg(e.R), genNestedCfg(e.R)
 	if e.R.Intn(3) != 0 {
@@ -1422,6 +1480,7 @@ func runNested(e *vlib.Env) vlib.Result {
 	outer.delegate = func(t int, msg *message.Message) ([]*message.Message, error) {
 		// inner run t covers the global attempts (t-1)*per+1 .. t*per
 		iv := &invocation{name: fmt.Sprintf("%s-inner%d", name, t), forever: true}
+		iv.errs = plan.script(iv.name)
 		lo := (t - 1) * per
 		if g > lo && g <= lo+per {
 			iv.forever, iv.failN = false, g-lo-1
@@ -1616,7 +1675,7 @@ func pickElapsed(r *vlib.Rand) time.Duration {
 
 // runMsgCtxElapsed: class elapsed with a message context of its own: MaxElapsedTime (kinds far, later, none) or the sooner
 // message deadline (kinds sooner*) has to end the retries; using all 2001 calls needs 2000 waits of >= 1 ms.
-func runMsgCtxElapsed(e *vlib.Env, vi int) vlib.Result {
+func runMsgCtxElapsed(e *vlib.Env, vi int, plan *errPlan) vlib.Result {
 	kinds := []string{"far", "later", "none", "sooner", "sooner-1h", "sooner-near"}
 	kind := kinds[vi%len(kinds)]
 	res := vlib.Result{Class: "msgctx/elapsed/" + kind}
@@ -1639,6 +1698,7 @@ func runMsgCtxElapsed(e *vlib.Env, vi int) vlib.Result {
 	}
 	flavour := e.R.Intn(msgCtxFlavours)
 	iv := &invocation{name: e.ID() + "-mce", forever: true, work: 100 * time.Microsecond}
+	iv.errs = plan.script(iv.name)
 	h := c.retry(iv.hook).Middleware(iv.handler)
 	msg := message.NewMessage(iv.name, e.R.Payload(8))
 	mc := mkMsgCtx(flavour, d, e.ID())
@@ -1654,7 +1714,7 @@ func runMsgCtxElapsed(e *vlib.Env, vi int) vlib.Result {
 		return res
 	}
 	res.Events += judge(&res, c, iv, expect{class: res.Class, calls: -1, callsBelow: c.MaxRetries + 1, checkDelay: true, allowStop: true,
-		ctxClause: sooner, ctxIntact: !sooner, msgCtx: mc.desc, msgDeadline: d})
+		ctxClause: sooner, ctxIntact: !sooner, msgCtx: mc.desc, msgDeadline: d, callsAtLeast: 2, giveUpBudget: c.MaxElapsed})
 	mc.count(&res)
 	if res.Failed() {
 		res.Witness = map[string]any{"trace": tr, "message_context": mc.desc, "message_deadline_ns": int64(d)}
@@ -1676,7 +1736,7 @@ func runMsgCtxElapsed(e *vlib.Env, vi int) vlib.Result {
 
 // runMsgCtxInsideWait: class elapsed-inside-wait with a message context of its own. The limit that ends first (MaxElapsedTime for
 // the kinds far, later, none; the message deadline for kind sooner) ends inside the second wait, 5.5 x Initial before its end.
-func runMsgCtxInsideWait(e *vlib.Env, vi int) vlib.Result {
+func runMsgCtxInsideWait(e *vlib.Env, vi int, plan *errPlan) vlib.Result {
 	kinds := []string{"far", "later", "sooner", "none"}
 	kind := kinds[vi%len(kinds)]
 	res := vlib.Result{Class: "msgctx/inside-wait/" + kind}
@@ -1709,6 +1769,7 @@ func runMsgCtxInsideWait(e *vlib.Env, vi int) vlib.Result {
 		// attempts 1 and 2 fail; a third attempt (which a correct Retry never makes here) succeeds, so that a Retry that ignores
 		// the limit returns right after it instead of going on with waits of 36 x, 216 x ... Initial
 		iv := &invocation{name: fmt.Sprintf("%s-mcw%d", e.ID(), rep), failN: 2}
+		iv.errs = plan.script(iv.name)
 		h := c.retry(iv.hook).Middleware(iv.handler)
 		msg := message.NewMessage(iv.name, nil)
 		mc := mkMsgCtx(flavour, d, iv.name)
@@ -1745,8 +1806,8 @@ func runMsgCtxInsideWait(e *vlib.Env, vi int) vlib.Result {
 			res.Fail("failure-to-success", "[%s] every attempt failed but Retry returned a nil error", res.Class)
 			return res
 		}
-		if tr.Calls <= 2 && lastErr != nil && retErr != lastErr && !errors.Is(retErr, lastErr) {
-			res.Fail("last-error", "[%s] last attempt (%d) failed with %q but Retry returned %q", res.Class, tr.Calls, lastErr.Error(), retErr.Error())
+		if tr.Calls <= 2 && lastErr != nil && !sameErr(retErr, lastErr) && !errors.Is(retErr, lastErr) {
+			res.Fail("last-error", "[%s] last attempt (%d) failed with %q but Retry returned %q", res.Class, tr.Calls, errText(lastErr), errText(retErr))
 			res.Witness = tr
 			return res
 		}
@@ -1785,7 +1846,7 @@ func runMsgCtxInsideWait(e *vlib.Env, vi int) vlib.Result {
 }
 
 // runMsgCtxDeadlineInWait: the message deadline (1..5 ms) ends inside a 1 h back-off wait, with every relation to MaxElapsedTime.
-func runMsgCtxDeadlineInWait(e *vlib.Env, vi int) vlib.Result {
+func runMsgCtxDeadlineInWait(e *vlib.Env, vi int, plan *errPlan) vlib.Result {
 	kinds := []string{"E=0", "E=1h", "E=D+10..30s", "E=2..4xD"}
 	kind := kinds[vi%len(kinds)]
 	res := vlib.Result{Class: "msgctx/deadline-in-wait/" + kind}
@@ -1801,6 +1862,7 @@ func runMsgCtxDeadlineInWait(e *vlib.Env, vi int) vlib.Result {
 	}
 	flavour := e.R.Intn(msgCtxFlavours)
 	iv := &invocation{name: e.ID() + "-mcd", forever: true}
+	iv.errs = plan.script(iv.name)
 	iv.outs = genOuts(e.R, iv.name, 3)
 	h := c.retry(iv.hook).Middleware(iv.handler)
 	msg := message.NewMessage(iv.name, e.R.Payload(8))
@@ -1838,7 +1900,7 @@ func runMsgCtxDeadlineInWait(e *vlib.Env, vi int) vlib.Result {
 }
 
 // runMsgCtxSchedule: class schedule on messages whose context carries a deadline far beyond the case (or none, in odd shapes).
-func runMsgCtxSchedule(e *vlib.Env, vi int) vlib.Result {
+func runMsgCtxSchedule(e *vlib.Env, vi int, plan *errPlan) vlib.Result {
 	kinds := []string{"far", "between", "later-sec", "none"}
 	kind := kinds[vi%len(kinds)]
 	res := vlib.Result{Class: "msgctx/schedule/" + kind}
@@ -1881,6 +1943,7 @@ func runMsgCtxSchedule(e *vlib.Env, vi int) vlib.Result {
 	for ri, si := range order {
 		s := scripts[si]
 		iv := &invocation{name: fmt.Sprintf("%s-s%d", e.ID(), ri), failN: s.failN, forever: s.forever}
+		iv.errs = plan.script(iv.name)
 		iv.outs = genOuts(e.R, iv.name, c.MaxRetries+3)
 		mc, msg := shared, sharedMsg
 		if mc == nil {
